@@ -86,6 +86,30 @@ static void *src_cb(void *ctx, UINT32 size, UINT32 esi)
 	return ret;
 }
 
+/* application symbol buffers: exactly `len` bytes whose END coincides with the end of the heap block (so that the
+ * sanitizer sees any access past the symbol), starting `g_align` bytes into the block; the slack in front is a canary */
+static unsigned g_align = 0;
+#define NBASE 65536
+static struct { void *p, *base; unsigned a; } bases[NBASE]; static unsigned nbases;
+static unsigned char *abuf(unsigned len)
+{
+	unsigned a = g_align & 7;
+	unsigned char *base = malloc((len ? len : 1) + a);
+	memset(base, 0xC5, a);
+	if (a) { unsigned i; for (i = 0; i < NBASE; i++) if (!bases[i].p) { bases[i].p = base + a; bases[i].base = base; bases[i].a = a; break; }
+		if (i == NBASE) { fprintf(stderr, "abuf table full\n"); abort(); } if (i >= nbases) nbases = i + 1; }
+	return base + a;
+}
+static int canary_ok = 1;
+static void afree(void *p)
+{
+	if (!p) return;
+	for (unsigned i = 0; i < nbases; i++) if (bases[i].p == p) {
+		for (unsigned j = 0; j < bases[i].a; j++) if (((unsigned char *)bases[i].base)[j] != 0xC5) canary_ok = 0;
+		free(bases[i].base); bases[i].p = NULL; return; }
+	free(p);
+}
+
 static unsigned lcg(unsigned *x) { *x = (*x * 1103515245u + 12345u) & 0x7fffffffu; return (*x >> 16) & 0xff; }
 
 static void fill_source(S_t *s, unsigned i, unsigned char *b, int mode, unsigned seed)
@@ -156,8 +180,8 @@ static void check_app_buffers(S_t *s)
 static void free_session_buffers(S_t *s)
 {
 	if (s->cw) { for (unsigned e = 0; e < s->n; e++) free(s->cw[e]); free(s->cw); }
-	for (int j = 0; j < MAXSUB; j++) if (s->sub[j]) { for (unsigned e = 0; e < s->n; e++) free(s->sub[j][e]); free(s->sub[j]); }
-	if (s->enc_tab) { for (unsigned e = 0; e < s->n; e++) free(s->enc_tab[e]); free(s->enc_tab); }
+	for (int j = 0; j < MAXSUB; j++) if (s->sub[j]) { for (unsigned e = 0; e < s->n; e++) afree(s->sub[j][e]); free(s->sub[j]); }
+	if (s->enc_tab) { for (unsigned e = 0; e < s->n; e++) afree(s->enc_tab[e]); free(s->enc_tab); }
 	if (s->enc_src_copy) { for (unsigned e = 0; e < s->k; e++) free(s->enc_src_copy[e]); free(s->enc_src_copy); }
 	free(s->enc_slot_lib);
 	if (s->cbbuf) { for (unsigned e = 0; e < s->k; e++) free(s->cbbuf[e]); free(s->cbbuf); }
@@ -217,8 +241,9 @@ int main(void)
 		if (sscanf(line, "%31s", op) != 1) continue;
 		if (!strcmp(op, "case")) {
 			for (int i = 0; i < MAXS; i++) if (S[i].ses) { printf("@bad-op unreleased session %d\n", i); goto next; }
-			printf("@ok\n"); goto next;
+			printf("@ok%s\n", canary_ok ? "" : " !canary-overwritten"); canary_ok = 1; goto next;
 		}
+		if (!strcmp(op, "align")) { unsigned a = 0; sscanf(line, "%*s %u", &a); g_align = a & 7; printf("@ok\n"); goto next; }
 		if (!strcmp(op, "nullses")) {	/* every entry point with a NULL session */
 			void *tab[4] = {0}; char buf[8] = {0}; UINT32 v = 0; of_ldpc_parameters_t p; memset(&p, 0, sizeof p);
 			p.nb_source_symbols = 2; p.nb_repair_symbols = 3; p.encoding_symbol_length = 4; p.N1 = 3; p.prng_seed = 1;
@@ -304,14 +329,14 @@ int main(void)
 			if (!s->enc_tab) {
 				s->enc_tab = calloc(s->n + 1, sizeof(void *)); s->enc_src_copy = calloc(s->k + 1, sizeof(void *));
 				s->enc_slot_lib = calloc(s->n + 1, sizeof(int));
-				for (unsigned e = 0; e < s->k; e++) { s->enc_tab[e] = malloc(s->len ? s->len : 1); memcpy(s->enc_tab[e], s->cw[e], s->len);
+				for (unsigned e = 0; e < s->k; e++) { s->enc_tab[e] = abuf(s->len); memcpy(s->enc_tab[e], s->cw[e], s->len);
 					s->enc_src_copy[e] = malloc(s->len ? s->len : 1); memcpy(s->enc_src_copy[e], s->cw[e], s->len); }
 			}
 			int own = !strcmp(w1, "own");
 			if (a >= s->k && a < s->n) {
-				if (s->enc_tab[a]) free(s->enc_tab[a]);	/* the application owns the previous buffer either way */
+				if (s->enc_tab[a]) afree(s->enc_tab[a]);	/* the application owns the previous buffer either way */
 				s->enc_tab[a] = NULL; s->enc_slot_lib[a] = !own;
-				if (own) { s->enc_tab[a] = malloc(s->len ? s->len : 1); memset(s->enc_tab[a], 0x55, s->len); }
+				if (own) { s->enc_tab[a] = abuf(s->len); memset(s->enc_tab[a], 0x55, s->len); }
 			}
 			cur_sid = sid; of_status_t st = of_build_repair_symbol(s->ses, (void **)s->enc_tab, a); cur_sid = -1;
 			printf("@ok st=%s", stname(st));
@@ -324,14 +349,14 @@ int main(void)
 			unsigned char *buf = NULL;
 			if (!strcmp(op, "recv")) {
 				unsigned e = a < s->n ? a : 0;
-				buf = malloc(s->len ? s->len : 1); memcpy(buf, s->cw[e], s->len);
+				buf = abuf(s->len); memcpy(buf, s->cw[e], s->len);
 				if (a < s->n) { int j; for (j = 0; j < MAXSUB; j++) { if (!s->sub[j]) s->sub[j] = calloc(s->n, sizeof(void *)); if (!s->sub[j][a]) { s->sub[j][a] = buf; break; } }
-					if (j == MAXSUB) { free(buf); printf("@bad-op too many duplicates\n"); goto next; } }
+					if (j == MAXSUB) { afree(buf); printf("@bad-op too many duplicates\n"); goto next; } }
 			}
 			nev = 0;
 			cur_sid = sid; of_status_t st = of_decode_with_new_symbol(s->ses, buf, a); cur_sid = -1;
 			printf("@ok st=%s", stname(st)); print_events(); check_app_buffers(s); printf("\n");
-			if (a >= s->n) free(buf);
+			if (a >= s->n) afree(buf);
 			goto next;
 		}
 		if (!strcmp(op, "avail")) {
@@ -342,7 +367,7 @@ int main(void)
 			if (!s->sub[0]) s->sub[0] = calloc(s->n, sizeof(void *));
 			for (p++; *p && *p != '\n' && *p != '-';) {
 				unsigned e = (unsigned)strtoul(p, &p, 10); if (*p == ',') p++;
-				if (e < s->n && !s->sub[0][e]) { s->sub[0][e] = malloc(s->len ? s->len : 1); memcpy(s->sub[0][e], s->cw[e], s->len); }
+				if (e < s->n && !s->sub[0][e]) { s->sub[0][e] = abuf(s->len); memcpy(s->sub[0][e], s->cw[e], s->len); }
 				if (e < s->n) tab[e] = s->sub[0][e];
 			}
 			nev = 0;
